@@ -15,7 +15,7 @@
                                     depths: any functions (which entry is chosen is property C20) *)
 From Coq Require Import List NArith ZArith Bool.
 From SNT Require Import Base.Outcome Encoder.Decimal Encoder.Utf8 Encoder.Encode Encoder.EncodeStream Encoder.EncodeOrig Encoder.VT
-  Encoder.VTProofs Encoder.Denote Encoder.EncodeProofs Encoder.EncodeMeaning.
+  Encoder.VTProofs Encoder.Denote Encoder.EncodeProofs Encoder.EncodeMeaning Encoder.Color256 Encoder.EncodeC20.
 Import ListNotations.
 Local Open Scope N_scope.
 
@@ -71,10 +71,22 @@ Theorem C05_parser_concat :
 Proof. exact vt_parse_app. Qed.
 
 (* 5. NO PANIC: the model (checked arithmetic) has no failing path for ANY
-      command value, in or out of the domain of the meaning theorem. *)
+      command value, in or out of the domain of the meaning theorem.  Here the palette
+      index / grey level are PARAMETERS, so the reduced-depth code is not inside this
+      statement; C05_nopanic_with_reduction below closes that. *)
 Theorem C05_nopanic :
   forall (pal256 gray4 : rgba -> N) (cp : caps) (c : cmd), is_ok (encode pal256 gray4 cp c) = true.
 Proof. exact encode_total. Qed.
+
+(* 5a. NO PANIC with the colour reduction of C20 inside the model: encode_c20 runs the
+       EightBit arm with explicit panic sites (CUBE[..], GREYS[..] indexing; nearest's
+       `len - 1`), over the regenerated tables.  Not modelled: f32 evaluation
+       (partial_cmp().unwrap() cannot fail on the finite values involved); the
+       exhaustive run of c20sweep encodes all 2^24 colours under every depth on
+       every check and reports a panic as a violation. *)
+Theorem C05_nopanic_with_reduction :
+  forall (cp : caps) (c : cmd), is_ok (encode_c20 cp c) = true.
+Proof. exact encode_c20_total. Qed.
 
 (* 5b. KNOWN FINDING (class C05-char-introducer, excluded from cmd_ok): `Char(c)` for the seven
        characters that open a control sequence or string (ESC, and C1 DCS SOS CSI OSC PM APC) is
